@@ -1,5 +1,7 @@
 import Ufo2ftModel.Drv.Util
 import Ufo2ftModel.Spec.C12
+import Ufo2ftModel.Spec.C12Names
+import Ufo2ftModel.Spec.C11
 namespace Ufo2ft.Drv.C12
 open Lean Ufo2ft.Drv Ufo2ft.C12
 
@@ -126,6 +128,23 @@ def asResult (draws : Array (List Drawing)) (j : Json) : R (Except String Out) :
                    adv := ← asList asInt (← field j "adv"),
                    layout := ← asList asStr (← field j "layout") }
 
+/-! #### glyph identity under production names (Model/C12Names.lean; the naming code is C11's model) -/
+
+def asName (j : Json) : R Ufo2ft.C11.Name := do return (← asStr j).toList
+def nameJ (n : Ufo2ft.C11.Name) : Json := Json.str (String.ofList n)
+
+def asSwitches (j : Json) : R Ufo2ft.C11.Switches := do
+  return { arg := ← asOpt asBool (← field j "arg"), libUse := ← asOpt asBool (← field j "libUse"),
+           libDont := ← asOpt asBool (← field j "libDont"), libKeep := ← asOpt asBool (← field j "libKeep"),
+           hasPs := ← asBool (← field j "hasPs"), cff1 := true }
+
+def asNamesIn (ij : Json) : R (Ufo2ft.C11.Switches × Ufo2ft.C11.Input) := do
+  let order ← asList asName (← field ij "order")
+  let gs ← asList (asPair asName (asOpt asNat)) (← field ij "glyphSet")
+  let ps ← asOpt (asList (asPair asName asName)) (← field ij "ps")
+  let s ← asSwitches (← field ij "switches")
+  return (s, { order := order, glyphSet := gs, psNames := ps })
+
 /-- op "font": all combinations on one source font -/
 def fontOp (req : Json) : R Reply := do
   let i ← field req "in"
@@ -135,13 +154,26 @@ def fontOp (req : Json) : R Reply := do
   let draws := (← asList asFontDrawing (← field obs "draws")).toArray
   let rs ← asList (asResult draws) (← field obs "results")
   let holds := holdsSame cs rs
-  match ← asOpt asNat (← field i "base") with
+  -- sources built with production names: the prediction starts from the build WITHOUT renaming (obs.twin)
+  let named ← (match i.getObjVal? "names" with
+    | .ok j => if j.isNull then pure none else some <$> asNamesIn j
+    | .error _ => pure none)
+  let twin ← (match obs.getObjVal? "twin" with
+    | .ok j => if j.isNull then pure none else some <$> asResult draws j
+    | .error _ => pure none)
+  let baseIdx ← asOpt asNat (← field i "base")
+  let base? : Option (Except String Out) := match twin with
+    | some t => some t
+    | none => baseIdx.bind (fun k => rs[k]?)
+  match base? with
   | none => return { model := Json.null, holds }
-  | some k =>
-    match rs[k]? with
-    | some (.ok base) =>
+  | some b =>
+    match b with
+    | .ok base =>
       -- predicted fonts; their drawings are sent once each (index into `draws`)
-      let preds := cs.map (modelFont order base)
+      let preds := match named with
+        | some (sw, inp) => cs.map (modelFontNamed sw inp base)
+        | none => cs.map (modelFont order base)
       let distinct : List (List Drawing) := (preds.filterMap (fun p => match p with | .ok o => some o.drawing | .error _ => none)).eraseDups
       let model := Json.mkObj [
         ("draws", listJ (listJ (listJ opJ)) distinct),
@@ -171,12 +203,44 @@ def specOp (req : Json) : R Reply := do
   -- drawn (on redundant lists only the agreement with `specTopo` is checked; the known finding is judged on fonts)
   return { model, holds := ospec == oplain || !topoFree cmds }
 
+/-- op "names": one source font built with some setting of the production-name switches under several option
+    combinations.  in = {order, glyphSet, ps, switches}; obs = {twin: digest per glyph index of the build WITHOUT
+    renaming, ref: the same for the reference build (CFF 1, nothing optimised) WITH the switches, refNames,
+    fonts: [{tag, names|null}] for every successful combination} -/
+def namesOp (req : Json) : R Reply := do
+  let ij ← field req "in"
+  let (s, i) ← asNamesIn ij
+  let order := i.order
+  let obs ← field req "obs"
+  let twin ← asList asStr (← field obs "twin")
+  let oref ← asList asStr (← field obs "ref")
+  let orefNames ← asOpt (asList asName) (← field obs "refNames")
+  let fonts ← asList (fun j => do
+      let t ← asVer (← field j "tag")
+      let n ← asOpt (asList asName) (← field j "names")
+      pure (t, n)) (← field obs "fonts")
+  -- model
+  let c1 := renameCarriers .v1 s i
+  let mref : Json := match savedIndex .v1 c1 with
+    | .error _ => Json.mkObj [("err", "KeyError")]
+    | .ok idx => strsJ (idx.filterMap (fun k => twin[k]?))
+  let mfonts := fonts.map (fun (t, _) => savedNames t (renameCarriers t s i))
+  let model := Json.mkObj [("ref", mref), ("refNames", optJ (listJ nameJ) (savedNames .v1 c1)),
+    ("fonts", listJ (optJ (listJ nameJ)) mfonts)]
+  -- the property on what was observed
+  let holds := holdsCarried twin oref orefNames &&
+    fonts.all (fun (_, n) => namesIdentify twin.length n) &&
+    allSameNames (orefNames :: fonts.map (·.2))
+  let hyp := decide order.Nodup && Ufo2ft.C11.covers i && twin.length == order.length
+  return { model, holds, hyp := Json.bool hyp }
+
 def handle (op : String) (req : Json) : R Reply :=
   match op with
   | "dispatch" => dispatchOp req
   | "width" => widthOp req
   | "font" => fontOp req
   | "spec" => specOp req
+  | "names" => namesOp req
   | _ => throw s!"C12: unknown op {op}"
 
 end Ufo2ft.Drv.C12
